@@ -18,7 +18,7 @@ Silent  == {"exit_malformed"}                                 \* accepted or not
 
 VARIABLES tasks,     \* [Agents -> SUBSET Ids]  outstanding request ids
           used,      \* ids already issued (ids are issued once)
-          open,      \* [Agents -> BOOLEAN]     the download file id is open
+          open,      \* [Agents -> Nat]         how many transfers the agent has open under the download file id (a second open adds one)
           last,      \* outcome of the last step
           hist
 
@@ -29,13 +29,14 @@ None == [op |-> "none", a |-> "", r |-> 0, c |-> "", accepted |-> FALSE, effect 
 
 Init == /\ tasks = [a \in Agents |-> {}]
         /\ used = {}
-        /\ open = [a \in Agents |-> FALSE]
+        /\ open = [a \in Agents |-> 0]
         /\ last = None
         /\ hist = <<>>
 
 Log(op, a, r, c) == hist' = Append(hist, [op |-> op, a |-> a, r |-> r, c |-> c])
 
 Issue(a, r) ==   \* operator issues a task; the teamserver records its request id
+    /\ r # 0         \* (0 is the id the teamserver's own relay jobs carry: no operator task ever has it)
     /\ r \notin used
     /\ tasks' = [tasks EXCEPT ![a] = @ \cup {r}]
     /\ used' = used \cup {r}
@@ -51,8 +52,8 @@ Effectful(a, c) == c \notin Silent   \* every dispatched callback at least print
 Callback(a, r, c) ==
     LET acc == Accepted(a, r, c) IN
     /\ tasks' = IF acc /\ c \in Final THEN [tasks EXCEPT ![a] = @ \ {r}] ELSE tasks
-    /\ open' = IF acc /\ c = "dlopen" THEN [open EXCEPT ![a] = TRUE]
-               ELSE IF acc /\ c = "dlclose" THEN [open EXCEPT ![a] = FALSE]
+    /\ open' = IF acc /\ c = "dlopen" THEN [open EXCEPT ![a] = IF @ < 3 THEN @ + 1 ELSE @]
+               ELSE IF acc /\ c = "dlclose" THEN [open EXCEPT ![a] = IF @ > 0 THEN @ - 1 ELSE 0]
                ELSE open
     /\ last' = [op |-> "Callback", a |-> a, r |-> r, c |-> c, accepted |-> acc, effect |-> acc /\ Effectful(a, c)]
     /\ UNCHANGED used
@@ -64,11 +65,16 @@ Callback(a, r, c) ==
 HandOut(a) == /\ UNCHANGED <<tasks, used, open>>
               /\ last' = [None EXCEPT !.op = "HandOut", !.a = a]
               /\ Log("HandOut", a, 0, "")
+(* the teamserver queues a job of its own for the agent (a SOCKS / port-forward relay goroutine handing data on, the wrapper
+   that carries a pivot child's task): such jobs have request id 0 and are nobody's task - id 0 stays unacceptable *)
+RelayJob(a) == /\ UNCHANGED <<tasks, used, open>>
+               /\ last' = [None EXCEPT !.op = "RelayJob", !.a = a]
+               /\ Log("RelayJob", a, 0, "")
 Next == /\ Len(hist) < MaxOps
         /\ \E a \in Agents, r \in Ids :
               \/ Issue(a, r)
               \/ \E c \in Classes : Callback(a, r, c)
-              \/ HandOut(a)
+              \/ HandOut(a) \/ RelayJob(a)
 
 Spec == Init /\ [][Next]_vars
 
